@@ -116,6 +116,9 @@ status_t Thread :: StartInternalThreadAux()
       _threadRunning = true;  // set this first, to avoid a race condition with the thread's startup...
 
       const status_t ret = StartInternalThreadAuxAux();
+#ifdef MUSCLE_VERIF_HOOKS
+      if ((ret.IsOK())&&(muscle_verif::g_hooks)) muscle_verif::g_hooks->ThreadSpawned(this);
+#endif
       if (ret.IsOK()) return ret;  // success!
 
       _threadRunning = false;  // oops, nevermind, thread spawn failed
@@ -300,6 +303,9 @@ status_t Thread :: WaitForNextMessageAux(ThreadSpecificData & tsd, MessageRef & 
       }
       (void) tsd._multiplexer.RegisterSocketForReadReady(msgfd);
 
+#ifdef MUSCLE_VERIF_HOOKS
+      if (muscle_verif::g_hooks) {muscle_verif::g_hooks->WaitReadable(msgfd, wakeupTime); wakeupTime = 0;}
+#endif
       MRETURN_ON_ERROR(tsd._multiplexer.WaitForEvents(wakeupTime));
 
       ret = B_TIMED_OUT;
@@ -387,6 +393,9 @@ status_t Thread :: WaitForInternalThreadToExit()
    if (_threadRunning)
    {
       status_t ret;
+#ifdef MUSCLE_VERIF_HOOKS
+      if (muscle_verif::g_hooks) muscle_verif::g_hooks->ThreadJoin(this);
+#endif
 
 #if defined(MUSCLE_USE_CPLUSPLUS11_THREADS)
 # if !defined(MUSCLE_NO_EXCEPTIONS)
@@ -426,6 +435,9 @@ Thread * Thread :: GetCurrentThread()
 // This method is here to 'wrap' the internal thread's virtual method call with some standard setup/tear-down code of our own
 void Thread::InternalThreadEntryAux()
 {
+#ifdef MUSCLE_VERIF_HOOKS
+   if (muscle_verif::g_hooks) muscle_verif::g_hooks->ThreadBegin(this);
+#endif
 #if defined(__linux__)
    _threadTid = syscall(SYS_gettid);  // was: gettid(), but some versions of libc didn't define that properly
 #endif
@@ -462,6 +474,9 @@ void Thread::InternalThreadEntryAux()
    }
 
    _threadStackBase = NULL;
+#ifdef MUSCLE_VERIF_HOOKS
+   if (muscle_verif::g_hooks) muscle_verif::g_hooks->ThreadEnd(this);
+#endif
 }
 
 Thread::muscle_thread_key Thread :: GetCurrentThreadKey()
